@@ -11,6 +11,8 @@
   construction), `depth` (stack frames of the multi-frame reader).
 -/
 import CedarProofs.DecodeText
+import CedarProofs.DecodeNoEnd
+import CedarGen.FactsAdRead
 
 namespace Cedar.C13
 
@@ -47,6 +49,17 @@ theorem total_handshake (s : St) :
     (getIDString s).1 ≠ .error .panic ∧ (getToken s).1 ≠ .error .panic :=
   ⟨(tlsRecv_facts s _ _ rfl).np, (exchangeKey_facts s _ _ rfl).np, (getIDString_facts s _ _ rfl).1.np,
    (getStringMax_facts maxTokenLen s _ _ rfl).str.np⟩
+
+/-- **total and linear, the remaining length-prefixed handshake readers** — the Kerberos request
+    blob (code, length, data) and the optional raw fields of the token exchange's error-state
+    branches (`fieldLen`, then that many raw bytes): never a panic, and what they allocate is paid
+    for by bytes that arrived, whatever length the peer announces. (The other readers of these
+    sub-protocols are `getIDString`, `getToken`, capped strings and integers: above.) -/
+theorem total_linear_subprotocols (s : St) :
+    (krbRead s).1 ≠ .error .panic ∧ Linear 0 s (krbRead s).2 ∧
+    (rawField s).1 ≠ .error .panic ∧ Linear 0 s (rawField s).2 :=
+  ⟨(tlsRecv_facts s _ _ (krbRead_eq s).symm).np, linear_of (tlsRecv_facts s _ _ (krbRead_eq s).symm).law,
+   (rawField_facts s (rawField s).1 (rawField s).2 rfl).np, linear_of (rawField_facts s (rawField s).1 (rawField s).2 rfl).law⟩
 
 /-- **total, framing** — for every wire byte string (and every fuel), one frame, a complete
     message, a message read through `StartMessageRead`, and the shared-port hand-off header
@@ -115,6 +128,52 @@ theorem linear_framing (encOn : Bool) (w : Bytes) (fuel : Nat) :
   simp only [Nat.mul_zero, Nat.zero_add] at h1 h2 h3 h4
   exact ⟨h1, h2, da, h3, h4, by simpa using db⟩
 
+/-- **total, the frame reader without end flag and its callers** — `stream.ReceiveFrame`,
+    `Stream.GetSecret` (key or no key) and `Stream.GetFile` end in a value or an error for every
+    wire byte string: a size frame of any length and any signed value, chunk frames of any sizes,
+    any end marker. -/
+theorem total_framing_noend (key encOn : Bool) (w : Bytes) (m : WMeter) :
+    (recvFrameNE encOn w m).1 ≠ .error .panic ∧ (getSecretW key encOn w m).1 ≠ .error .panic ∧
+    (getFile encOn w m).1 ≠ .error .panic :=
+  ⟨(recvFrameNE_facts encOn w m (recvFrameNE encOn w m).1 (recvFrameNE encOn w m).2 rfl).np,
+   (getSecretW_facts key encOn w m (getSecretW key encOn w m).1 (getSecretW key encOn w m).2 rfl).np,
+   (getFile_facts encOn w m (getFile encOn w m).1 (getFile encOn w m).2 rfl).1.np⟩
+
+/-- **a header announcing more than `MaxMessageSize` is refused before any buffer is sized from
+    it** — by both frame readers, with not a byte allocated (this is what keeps a 5-byte header
+    from costing 4 GiB through `GetSecret` / `GetFile` / `ReadFrame`). -/
+theorem oversize_header_refused (encOn : Bool) (w : Bytes) (m : WMeter)
+    (h5 : Decode.headerSize ≤ w.length) (hbig : beVal ((w.drop 1).take 4) > Decode.maxMessageSize) :
+    recvFrameNE encOn w m = (.error .tooLarge, { m with frames := m.frames + 1 }) ∧
+    recvFrame encOn w m = (.error .tooLarge, { m with frames := m.frames + 1 }) := by
+  have h : ¬ (!lenGe w Decode.headerSize) = true := by
+    rw [(lenGe_iff w Decode.headerSize).mpr h5]; decide
+  constructor
+  · unfold recvFrameNE; rw [if_neg h]; simp only; rw [if_pos hbig]
+  · unfold recvFrame; rw [if_neg h]; simp only; rw [if_pos hbig]
+
+/-- **linear, the frame reader without end flag and its callers** — reading a secret or a whole
+    file off `w` parses at most `|w|/5 + 1` headers and allocates at most `|w|` plus ONE maximal
+    frame (only the last, failing read can have sized its buffer from a header whose payload
+    never came), uses no recursion; and `GetFile` writes no more bytes to the file than the wire
+    delivered, whatever file size the peer announced. -/
+theorem linear_framing_noend (key encOn : Bool) (w : Bytes) :
+    let a := (recvFrameNE encOn w {}).2
+    let b := (getSecretW key encOn w {}).2
+    let c := (getFile encOn w {}).2
+    (Decode.headerSize * a.frames ≤ w.length + Decode.headerSize ∧ a.alloc ≤ w.length + Decode.maxMessageSize ∧ a.depth = 0) ∧
+    (Decode.headerSize * b.frames ≤ w.length + Decode.headerSize ∧ b.alloc ≤ w.length + Decode.maxMessageSize ∧ b.depth = 0) ∧
+    (Decode.headerSize * c.frames ≤ w.length + Decode.headerSize ∧ c.alloc ≤ w.length + Decode.maxMessageSize ∧ c.depth = 0) ∧
+    ∀ t rest, (getFile encOn w {}).1 = .ok (t, rest) → t + rest.length ≤ w.length := by
+  have fa := recvFrameNE_facts encOn w {} (recvFrameNE encOn w {}).1 (recvFrameNE encOn w {}).2 rfl
+  have fb := getSecretW_facts key encOn w {} (getSecretW key encOn w {}).1 (getSecretW key encOn w {}).2 rfl
+  obtain ⟨fc, hw⟩ := getFile_facts encOn w {} (getFile encOn w {}).1 (getFile encOn w {}).2 rfl
+  have h1 := fa.frames; have h2 := fa.alloc
+  have h3 := fb.frames; have h4 := fb.alloc
+  have h5 := fc.frames; have h6 := fc.alloc
+  simp only [Nat.mul_zero, Nat.zero_add] at h1 h2 h3 h4 h5 h6
+  exact ⟨⟨h1, h2, fa.depth⟩, ⟨h3, h4, fb.depth⟩, ⟨h5, h6, fc.depth⟩, hw⟩
+
 /-- the shared-port header reader allocates at most 64 bytes -/
 theorem passsock_bounded (w : Bytes) : (readPassSock w).2 ≤ 64 := (readPassSock_facts w).2
 
@@ -148,6 +207,47 @@ theorem cap_classad (cap : Nat) (hc : 0 < cap) (pfail : Option Nat) (s : St) :
     (getClassAd cap pfail s).2.m.held ≤ max s.m.held (max cap 8) :=
   ⟨((getClassAd_facts cap pfail s _ _ rfl).2 hc).need, ((getClassAd_facts cap pfail s _ _ rfl).2 hc).held⟩
 
+/-! ## "the bounded ClassAd reader used for every handshake ad" -/
+
+/-- Enclosing functions in security/ and ccb/ that read a ClassAd which is NOT a handshake /
+    control ad and may therefore use an uncapped reader. Hand-written; empty today: every ClassAd
+    these two packages read from a peer (negotiation ad, post-authentication ad, resume reply,
+    CCB control and reverse-connect ads) arrives before or while the peer is authenticated. -/
+def notHandshakeAdReaders : List String := []
+
+/-- the largest cap a handshake reader may pass (64 KiB: `ccb.maxControlAdSize`) -/
+def maxHandshakeAdCap : Nat := 65536
+
+/-- **every handshake ad is read by the bounded reader** — over the table of ALL calls of a ClassAd
+    reader of package message in security/ and ccb/ (regenerated from the sources on every run,
+    `tools/gen/facts_adread.go`): each is `GetClassAdWithMaxSize` with a compile-time constant cap
+    between 1 and 64 KiB. A call of `GetClassAd`, `GetClassAdRaw`, … or a cap computed at run time
+    added to a handshake breaks this theorem. -/
+theorem handshake_ads_capped :
+    ∀ s ∈ CedarGen.FactsAdRead.adReadSites,
+      s.fn ∈ notHandshakeAdReaders ∨ (s.capped = true ∧ 0 < s.cap ∧ s.cap ≤ maxHandshakeAdCap) := by
+  decide
+
+/-- hence at every such site nothing beyond 64 KiB is ever requested from the wire at once or held
+    under construction, whatever the peer sends (`cap_classad` at the site's cap) -/
+theorem handshake_ads_bounded (pfail : Option Nat) (st : St) :
+    ∀ s ∈ CedarGen.FactsAdRead.adReadSites, s.fn ∉ notHandshakeAdReaders →
+      (getClassAd s.cap pfail st).2.m.need ≤ max st.m.need maxHandshakeAdCap ∧
+      (getClassAd s.cap pfail st).2.m.held ≤ max st.m.held maxHandshakeAdCap := by
+  intro s hs hn
+  rcases handshake_ads_capped s hs with h | ⟨_, hpos, hle⟩
+  · exact absurd h hn
+  · obtain ⟨h1, h2⟩ := cap_classad s.cap hpos pfail st
+    have : max s.cap 8 ≤ maxHandshakeAdCap := by
+      have : (8 : Nat) ≤ maxHandshakeAdCap := by decide
+      omega
+    exact ⟨by omega, by omega⟩
+
+/-- non-vacuity: the table is not empty — it lists the negotiation ad of both roles, the
+    post-authentication ad, the resume reply and both CCB readers -/
+example : CedarGen.FactsAdRead.adReadSites.length ≥ 6 ∧
+    "GetClassAdWithMaxSize" ∈ CedarGen.FactsAdRead.adReaders ∧ "GetClassAd" ∈ CedarGen.FactsAdRead.adReaders := by decide
+
 /-- **the skipping reader allocates (almost) nothing** — `SkipClassAdRaw` follows the secret marker
     by looking only at strings exactly as long as the marker (`skipStringIs`: a `GetBytes` of at
     most `|marker| + 1 = 4` bytes); whatever the ad, it never asks the wire for more than 8 bytes at
@@ -155,6 +255,28 @@ theorem cap_classad (cap : Nat) (hc : 0 < cap) (pfail : Option Nat) (s : St) :
 theorem cap_skip (s : St) :
     (skipClassAdRaw s).2.m.need ≤ max s.m.need 8 ∧ (skipClassAdRaw s).2.m.held ≤ max s.m.held 8 :=
   ⟨(skipClassAdRaw_facts s _ _ rfl).2.need, (skipClassAdRaw_facts s _ _ rfl).2.held⟩
+
+/-- **cap exceeded ⇒ the read FAILS** (not only "consumption is bounded"): with `cap > 0`,
+    * a plaintext string whose first `cap` buffered bytes hold no terminator is refused
+      (`sizeExceeded`) — it is not returned truncated;
+    * an encrypted-mode string announcing more than `cap` bytes is never returned, whatever follows;
+    * in the bounded ClassAd reader, once the running total has reached the cap, the next string —
+      expression, secret after a marker, MyType, TargetType — is refused without touching the
+      message (`sizeExceeded`, state unchanged), so the ad as a whole fails. -/
+theorem cap_exceeded_fails (cap : Nat) (hc : 0 < cap) :
+    (∀ (s : St) (pre rest : Bytes), s.enc = false → s.d.buf = pre ++ rest → pre.length = cap →
+        (∀ b ∈ pre, b ≠ 0) → (getStringMax cap s).1 = .error .sizeExceeded) ∧
+    (∀ (s : St) (len : Int) (s1 : St), s.enc = true → getInt32 s.call = (.ok len, s1) → (cap : Int) < len →
+        ∀ v, (getStringMax cap s).1 ≠ .ok v) ∧
+    (∀ (total : Nat) (s : St), cap ≤ total →
+        adString cap total s = (.error .sizeExceeded, s) ∧ adSecret cap total s = (.error .sizeExceeded, s)) :=
+  ⟨fun s pre rest henc hb hl hnz => getStringMax_plain_fails cap hc s pre rest henc hb hl hnz,
+   fun s len s1 henc hlen hbig => getStringMax_enc_fails cap hc s len s1 henc hlen hbig,
+   fun total s ht => adString_over_budget cap total hc ht s⟩
+
+/-- non-vacuity: cap 4 on the plaintext bytes "abcdef\0" fails; cap 8 returns the string -/
+example : isErr .sizeExceeded (getStringMax 4 { d := { buf := [97, 98, 99, 100, 101, 102, 0] } }).1 = true ∧
+    (getStringMax 8 { d := { buf := [97, 98, 99, 100, 101, 102, 0] } }).1.isOk = true := by decide
 
 /-- **cap honoured, token exchange** — identity strings and tokens are read under their limits
     (`AUTH_PW_MAX_NAME_LEN`, `AUTH_PW_MAX_TOKEN_LEN`). -/
@@ -243,6 +365,14 @@ theorem legacy_cap_fails : ¬ legacy_cap_statement := by
 
 /-- now the same secret is refused once the budget is used up -/
 example : isErr .sizeExceeded (adSecret 4 4 (getString markerMsg).2).1 = true := by decide
+
+/-- non-vacuity: a 3-byte file in two chunks is received (size, "ab", "c", 666), 3 bytes written;
+    a header announcing 2^20+1 bytes is refused with nothing allocated -/
+def fileWire : Bytes := [1,0,0,0,8, 0,0,0,0,0,0,0,3, 1,0,0,0,2, 97,98, 1,0,0,0,1, 99, 1,0,0,0,4, 0,0,2,154]
+example : (match (getFile false fileWire {}).1 with | .ok (3, []) => true | _ => false) = true ∧
+    (getFile false fileWire {}).2.alloc = 15 := by decide
+example : isErr .tooLarge (getSecretW false false [1, 0, 16, 0, 1] {}).1 = true ∧
+    (getSecretW false false [1, 0, 16, 0, 1] {}).2.alloc = 0 := by decide
 
 /-! Non-vacuity: a valid ad with a secret, read by every receiver in both modes. -/
 def demoPlain : St := { d := { src := [(be64 2 ++ [65, 61, 49, 0, 90, 75, 77, 0, 66, 61, 50, 0, 77, 0, 0], true)] } }
